@@ -77,6 +77,14 @@ func c54(c *Ctx) {
 			}
 		}
 		c.Expect(okLast, nil, f, "last-sent-remembered", "the last sent status is not remembered")
+		// the stream ends only when a send failed or the stream's context ended (it keeps following status changes otherwise)
+		serr := func(v ssa.Value) bool { return v == send.Value() }
+		for _, r := range returnsOf(f) {
+			if r.Block() == f.Recover || !instrDominates(send, r) {
+				continue
+			}
+			c.MustFact(r, "watch-ends-after-a-send-only-if-it-failed", NotNil(serr))
+		}
 		ls := locksets(f, lockOpts{})
 		unknown := ConstOfObj(c.konst("health/grpc_health_v1", "HealthCheckResponse_SERVICE_UNKNOWN"))
 		n := 0
